@@ -86,3 +86,13 @@ package robytes
 
 //@ loop random#0
 //@   iteration ensures count(loop.ANY) == 0
+
+//@ func ellipsis
+//@   note the text is trimmed FIRST; whether it fits is decided on the trimmed text (as the string flavour does), and only a text that is still too long is cut
+//@   props C18
+//@   binds length
+//@   scope length str varargs
+//@   maypanic
+//@   track call.TrimSpace
+//@   ensures [too-long-is-cut-then-trimmed-again|C18] !panics && len(res(call.TrimSpace)) > length && len(res(call.TrimSpace)) >= 3 && length >= 3 ==> count(call.TrimSpace) == 2
+
